@@ -541,7 +541,10 @@ String File::getRelativePath(const String& from, const String& to)
   String simTo = simplifyPath(to);
   if(simFrom == simTo)
     return String(".");
-  simFrom.append('/');
+  if(simFrom.isEmpty()) // relative to the current directory
+    return simTo;
+  if(!simFrom.endsWith("/"))
+    simFrom.append('/');
   if(String::compare((const char*)simTo, (const char*)simFrom, simFrom.length()) == 0)
     return String((const char*)simTo + simFrom.length(), simTo.length() - simFrom.length());
   String result("../");
@@ -550,7 +553,10 @@ String File::getRelativePath(const String& from, const String& to)
     simFrom.resize(simFrom.length() - 1);
     const char* newEnd = simFrom.findLast('/');
     if(!newEnd)
-      break;
+    { // no common leading directory
+      result.append(simTo);
+      return result;
+    }
     simFrom.resize((newEnd - (const char*)simFrom) + 1);
     if(String::compare((const char*)simTo, (const char*)simFrom, simFrom.length()) == 0)
     {
